@@ -2058,6 +2058,10 @@ int EGLPNUM_TYPENAME_ILLlib_chgsense (
 			ILL_CLEANUP;
 		}
 		k = A->matbeg[j];
+		/* a range value belongs to the sense it was given for: whatever the new
+		 * sense, the row starts without one */
+		if (qslp->rangeval)
+			EGLPNUM_TYPENAME_EGlpNumZero(qslp->rangeval[rowlist[i]]);
 		switch (sense[i])
 		{
 		case 'R':									/* Range constraint, we will set its upper bound
@@ -2069,8 +2073,6 @@ int EGLPNUM_TYPENAME_ILLlib_chgsense (
 			/* same orientation as a range row made by addrow: rhs <= ax <= rhs+range */
 			EGLPNUM_TYPENAME_EGlpNumOne(A->matval[k]);
 			EGLPNUM_TYPENAME_EGlpNumSign(A->matval[k]);
-			if (qslp->rangeval)
-				EGLPNUM_TYPENAME_EGlpNumZero(qslp->rangeval[rowlist[i]]);
 			break;
 		case 'E':									/* Artificial */
 			qslp->sense[rowlist[i]] = 'E';
